@@ -73,3 +73,12 @@ Theorem C07_other_recipient_refused :
     = ORet (Err (Decrypt.E "key decryption attempted with mismatched cert"%string)).
 Proof. exact P_C11.key_transport_mismatch_refused. Qed.
 Print Assumptions C07_other_recipient_refused.
+
+(* source tie: decryptAssertions is called by the TRANSLATED ValidateEncodedResponse exactly where the model calls it (on the
+   verified tree of a signed Response; on the root of an unsigned one, BEFORE the per-assertion signature checks) *)
+From V Require Import Generated Keys GenPrelude GenPreludeD GenPreludeT GenFuncs GenTree P_GenTree.
+Theorem C07_source_ValidateEncodedResponse_is_the_model : forall parse dsig decrypt cfg now enc,
+  norm_pm (G_ValidateEncodedResponse parse dsig (decrypt_assertions decrypt) cfg now enc)
+  = PVal (norm_res (entry parse enc (validate_response_tree dsig decrypt cfg now))).
+Proof. exact G_ValidateEncodedResponse_is_model. Qed.
+Print Assumptions C07_source_ValidateEncodedResponse_is_the_model.
